@@ -262,6 +262,45 @@ let cmd_mem args =
     emit ("dump " ^ hex_encode (ostr (dump_memory !m)))
   | _ -> failwith "mem: bad arguments"
 
+(* mgraph <nodes a,b,..> <succ n>a,b;...|-> <nedges> <implkind order|cycle> <implanswer> *)
+let ints_of (s : Stdlib.String.t) : n list =
+  if s = "-" then [] else List.map n_of_dec (Stdlib.String.split_on_char ',' s)
+
+let show_ns (l : n list) : Stdlib.String.t =
+  if l = [] then "-" else Stdlib.String.concat "," (List.map (fun x -> Stdlib.string_of_int (int_of_n x)) l)
+
+let cmd_mgraph args =
+  match args with
+  | nodes :: succ :: nedges :: kind :: answer :: _ ->
+    let succs = if succ = "-" then [] else
+        List.map (fun item ->
+            match Stdlib.String.split_on_char '>' item with
+            | [a; l] -> (n_of_dec a, ints_of l)
+            | _ -> failwith "succ item") (Stdlib.String.split_on_char ';' succ) in
+    let g = { g_nodes = ints_of nodes; g_succ = succs; g_num_edges = n_of_dec nedges } in
+    (match toposortN g with
+     | Ok (Inl order) -> emit ("order " ^ show_ns order)
+     | Ok (Inr c) -> emit ("cycle " ^ show_ns c)
+     | Err es -> emit ("err " ^ errs_str es));
+    let ans = ints_of answer in
+    (match kind with
+     | "order" -> emit ("implcheck " ^ b01 (is_linear_extensionN g ans))
+     | "cycle" -> emit ("implcheck " ^ b01 (is_cycleN g ans))
+     | _ -> emit "implcheck ?")
+  | _ -> failwith "mgraph: bad arguments"
+
+(* myo <filehex> *)
+let bytes_of (s : Stdlib.String.t) : n list =
+  List.init (Stdlib.String.length s) (fun i -> n_of_int (Char.code s.[i]))
+
+let cmd_myo args =
+  match args with
+  | [h] ->
+    (match load_from_y86 [] (bytes_of (hex_decode h)) with
+     | Ok m -> emit ("ok " ^ mem_line m)
+     | Err es -> emit ("err " ^ Stdlib.String.concat "," (List.map (fun e -> ostr (ekind_name e.ek)) es)))
+  | _ -> failwith "myo: bad arguments"
+
 let dispatch cmd args =
   match cmd with
   | "dis" -> cmd_dis args
@@ -269,6 +308,8 @@ let dispatch cmd args =
   | "mrun" -> cmd_mrun args
   | "mexpr" -> cmd_mexpr args
   | "mem" -> cmd_mem args
+  | "mgraph" -> cmd_mgraph args
+  | "yo" -> cmd_myo args
   | _ -> emit ("unknown command " ^ cmd)
 
 let () =
